@@ -482,6 +482,22 @@ drv_ref(int argc, char **argv)
                         }
         }
         hx_force_len = -1;
+        /* AES-CFB has no upper length limit in the job check: lengths at and above 64 KiB (the VAES x16 lanes count in 16 bits) */
+        for (int k = 0; k < nk && !nowin; k++) {
+                const char *kn = klist[k];
+                if (strncmp(kn, "CFB", 3) != 0 || strchr(kn, '+'))
+                        continue;
+                static const uint32_t big[] = { 65536, 65552, 69984, 131088 };
+                for (int w = 0; w < 4; w++) {
+                        hx_spec sp;
+                        if (!hx_spec_from_kind(kn, &g, &sp))
+                                return 2;
+                        sp.len = big[w];
+                        hx_rng g2;
+                        hx_seed(&g2, sp.seed ^ 0xc0ffee);
+                        ref_spec(kn, &sp, &g2);
+                }
+        }
         key_checks(&g, nkeys);
         ivgen_checks(&g, nkeys);
         fclose(hx_trace);
